@@ -19,7 +19,7 @@ class Params(dict):
         n_nodes=8, n_inputs=2, n_inits=2, n_outputs=2, p_if=0.15, p_call=0.1, n_functions=1, depth=2, typed=True,
         name_noise=0.0, unsorted=False, p_dup=0.2, p_const=0.15, p_multi=0.1, p_unused=0.1, p_optional=0.05, metadata=False,
         big_init=False, dup_inits=False, unused_function=False, ir_version=10, init_as_input=0.2, lazy_failing_init=False,
-        p_func_subgraph=0.35, annot_noise=0.0, name_style=0, func_name_overlap=0.0,
+        p_func_subgraph=0.35, annot_noise=0.0, name_style=0, func_name_overlap=0.0, p_graphs=0.0,
     )  # fmt: skip
 
     def __init__(self, **kw):
@@ -43,6 +43,7 @@ class Builder:
         self.functions: list = []
         self.all_values: list = []
         self.all_nodes: list = []
+        self.uses_custom = False
 
     def fresh(self, prefix: str) -> str:
         self.k += 1
@@ -121,9 +122,49 @@ class Builder:
                 f = rng.choice(self.functions)
                 ins = [rng.choice(avail) for _ in f.inputs]
                 n = ir.Node(f.domain, f.name, ins, [ir.AttrFloat32("alpha", 1.0 + rng.randrange(3))] if rng.random() < 0.5 else [], num_outputs=len(f.outputs), name=self.fresh("n"))
-            elif x < p["p_const"] + p["p_if"] + p["p_call"] + p["p_multi"] and avail:
-                kind = rng.choice(["Dropout", "Split", "Concat"])
-                if kind == "Dropout":
+            elif x < p["p_const"] + p["p_if"] + p["p_call"] + p.get("p_graphs", 0.0) and depth > 0 and avail:
+                # a custom-domain operator carrying a LIST of graphs in one attribute (AttributeType.GRAPHS)
+                bodies = []
+                for _b in range(rng.choice([1, 2, 2, 3])):
+                    binit = []
+                    if rng.random() < 0.3:
+                        iv = self.value(self.fresh("bi"))
+                        iv.const_value = _tensor(rng, iv.name)
+                        binit = [iv]
+                    bg, _ = self.build_body(avail, depth - 1, rng.randrange(1, 4), [], 1, self.fresh("case"), inits=binit)
+                    bodies.append(bg)
+                n = ir.Node("custom", "Switch", [rng.choice(avail)], [ir.AttrGraphs("branches", bodies)], num_outputs=1, name=self.fresh("n"))
+                self.uses_custom = True
+            elif x < p["p_const"] + p["p_if"] + p["p_call"] + p.get("p_graphs", 0.0) + p["p_multi"] and avail:
+                kind = rng.choice(["Dropout", "Split", "Concat", "LayerNorm3"])
+                if kind == "LayerNorm3":
+                    # three outputs, the two optional ones (Mean, InvStdDev) used or not independently: an unused optional
+                    # output that is NOT trailing can only be blanked, never trimmed
+                    ln = ir.Node("", "LayerNormalization", [rng.choice(avail), rng.choice(avail)], [ir.AttrInt64("axis", 0)], num_outputs=3, name=self.fresh("n"))
+                    for oi, o in enumerate(ln.outputs):
+                        o.name = self.fresh("v")
+                        if oi == 0:
+                            self._type_out(o)
+                        else:
+                            if p["typed"]:
+                                o.type = ir.TensorType(F)
+                                o.shape = ir.Shape([1, 1])
+                            self.all_values.append(o)
+                    nodes.append(ln)
+                    self.all_nodes.append(ln)
+                    use = rng.choice([(0, 2), (0, 2), (0, 1), (0, 1, 2), (0,)])
+                    if len(use) == 1:
+                        n = ir.Node("", "Identity", [ln.outputs[0]], name=self.fresh("n"))
+                    else:
+                        n = ir.Node("", "Add", [ln.outputs[use[0]], ln.outputs[use[1]]], name=self.fresh("n"))
+                        if len(use) == 3:
+                            n2 = ir.Node("", "Add", [n.outputs[0], ln.outputs[2]], name=self.fresh("n"))
+                            n.outputs[0].name = self.fresh("v")
+                            self._type_out(n.outputs[0])
+                            nodes.append(n)
+                            self.all_nodes.append(n)
+                            n = n2
+                elif kind == "Dropout":
                     n = ir.Node("", "Dropout", [rng.choice(avail)], num_outputs=rng.choice([1, 2]), name=self.fresh("n"))
                 elif kind == "Split":
                     n = ir.Node("", "Split", [rng.choice(avail)], [ir.AttrInt64("axis", 0), ir.AttrInt64("num_outputs", 2)], num_outputs=2, name=self.fresh("n"))
@@ -141,7 +182,7 @@ class Builder:
                 if op in ("Add",) and rng.random() < p["p_optional"]:
                     pass
                 n = ir.Node("", op, ins, name=self.fresh("n"))
-            shape_known = n.domain == "" and n.op_type in ("Add", "Sub", "Mul", "Neg", "Relu", "Identity", "Abs", "Constant")
+            shape_known = (n.domain == "" and n.op_type in ("Add", "Sub", "Mul", "Neg", "Relu", "Identity", "Abs", "Constant")) or n.domain == "custom"
             if n.op_type == "Constant" and "value" not in n.attributes:
                 shape_known = False
             for oi, o in enumerate(n.outputs):
@@ -206,6 +247,8 @@ def gen_model(rng, p: Params | None = None) -> ir.Model:
         f = ir.Function("fdom", f"F{i}", "", graph=fg, attributes=[ir.Attr("alpha", ir.AttributeType.FLOAT, 1.0)] if rng.random() < 0.5 else [])
         fg.opset_imports[""] = 20
         fg.opset_imports["fdom"] = 1
+        if b.uses_custom:
+            fg.opset_imports["custom"] = 1
         functions.append(f)
     b.functions = functions if not p["unused_function"] else functions[:-1] if len(functions) > 1 else functions
     inputs = [b.value(b.fresh("x")) for _ in range(p["n_inputs"])]
@@ -239,6 +282,8 @@ def gen_model(rng, p: Params | None = None) -> ir.Model:
     graph.opset_imports[""] = 20
     if functions:
         graph.opset_imports["fdom"] = 1
+    if b.uses_custom:
+        graph.opset_imports["custom"] = 1
     model = ir.Model(graph, ir_version=p["ir_version"], functions=functions, producer_name="verif")
     if p["metadata"]:
         model.metadata_props["mk"] = "mv"
